@@ -15,13 +15,18 @@
       decoder (`trimWhitespace`: per-line loop with its index bookkeeping, CR handling and empty-line cases)
       yields exactly what the specification reads off the source (trailing blanks before a line break and
       the indentation of continuation lines up to the quote column removed, a tab counting eight).
-  Not proved: the composition of layout with escapes in one multi-line text — held by stream yarg
+    * `C08_layout_with_escapes`: the same for texts that contain the escapes \" and \\ anywhere (every
+      backslash starts one of the two pairs): substituting first and laying out afterwards — what the code
+      does — equals laying out first and substituting afterwards — what the specification says; the two
+      do not interfere because neither pair contains a blank, a tab, CR or LF.
+  Not proved: texts with \n / \t escapes next to line breaks (the RFC leaves their order open) — held by stream yarg
   (value × quoting × layout triples on the real parser, compared with model and with `Spec.decodeArg`).
   The order of trimming and substitution is not fixed by RFC 6020: texts with \n/\t escapes next to real or
   escaped line breaks are compared implementation-vs-model only (Spec.orderSensitive).
 -/
 import YV.Proofs.YArg
 import YV.Proofs.YLayout
+import YV.Proofs.YLayoutEsc
 namespace YV.C08
 open YV YV.Y YV.YS
 
@@ -35,6 +40,13 @@ theorem C08_indent (col : Nat) (hc : col ≥ 1) (line : Bytes) :
 /-- **C08 (layout).** -/
 theorem C08_layout (col : Nat) (hc : col ≥ 1) (raw : Bytes) (h92 : ∀ x ∈ raw, x ≠ 92) :
     trimWhitespace col raw = decodeDQ col raw := trimWhitespace_eq_decodeDQ col hc raw h92
+
+/-- **C08 (layout with escapes).** -/
+theorem C08_layout_with_escapes (col : Nat) (hc : col ≥ 1) (raw : Bytes) (hs : safe raw = true) :
+    trimWhitespace col raw = decodeDQ col raw := trimWhitespace_eq_decodeDQ_safe col hc raw hs
+
+/-- non-vacuity: say \"hi\" <LF> <blanks> c:\\dir -/
+example : safe [115, 97, 121, 32, 92, 34, 104, 105, 92, 34, 32, 10, 32, 32, 32, 99, 58, 92, 92, 100, 105, 114] = true := by decide
 
 /-- non-vacuity: a three-line text, CRLF and LF, a tab across the quote column, trailing blanks, a blank line -/
 example : decodeDQ 4 [97, 32, 32, 13, 10, 32, 32, 9, 98, 32, 10, 10, 32, 32, 32, 32, 32, 99] =
